@@ -84,6 +84,16 @@ def make_cfg(seed, i, typ):
                 up["restarts.max_unsuccessful_restarts"] = int(gen.pick(rng, [1, 2, 3, 10]))
             if r() < 0.3:
                 cfg["args"]["rhoend"] = 1e-2 * (cfg["args"].get("rhobeg") or 0.1)
+        if i % 5 == 2 and not cfg.get("proj") and not cfg.get("reg"):
+            # relative small-objective threshold that matters (rel_tol*f(x0) far above abs_tol), long first steps (the model slot that
+            # held x0 is soon overwritten, possibly by a worse point): the threshold is max(abs_tol, rel_tol*f(x0)) whatever is stored
+            up["model.rel_tol"] = float(rng.uniform(0.03, 0.9))
+            up["model.abs_tol"] = 1e-20
+            rb = cfg["args"].get("rhobeg") or 0.1 * max(1.0, float(np.max(np.abs(cfg["x0"]))))
+            if cfg.get("lower") is None and cfg.get("upper") is None:
+                cfg["args"]["rhobeg"] = float(rb * gen.pick(rng, [3.0, 10.0, 20.0]))
+            cfg["args"]["rhoend"] = float(1e-6 * cfg["args"].get("rhobeg", rb))
+            cfg["args"]["maxfun"] = 100
         if r() < 0.25:
             # radius-update constants anywhere in their documented ranges ('rho has reached rhoend' must mean rho == rhoend)
             up["tr_radius.alpha1"] = float(10.0 ** rng.uniform(-4, -0.05))
